@@ -618,6 +618,9 @@ impl Play {
 
 #[derive(Copy, Clone, PartialEq, Eq, Debug)]
 pub enum Deco {
+    /// before every message: advance the clock to exactly one nanosecond before the deadline of
+    /// whatever is pending on the channel and poll (must report nothing and change nothing)
+    DeadlineMinusOne,
     None,
     LatePollAtBoundaries,
     EarlyPollsAndSmallTicks,
@@ -675,6 +678,7 @@ fn play(
         // ---------------- decorations before the token
         let in_pair = plays[pi].pair_open.is_some();
         let wants = match deco {
+            Deco::DeadlineMinusOne => 0,
             Deco::None => 0,
             Deco::LatePollAtBoundaries => 0,
             Deco::EarlyPollsAndSmallTicks => 2,
@@ -727,6 +731,20 @@ fn play(
                         }
                     }
                     _ => {}
+                }
+            }
+        }
+        if deco == Deco::DeadlineMinusOne && plays[pi].started && t != T_INF && t > 1 {
+            let first_t = plays[pi].pair_open.or(plays[pi].pending_m.map(|x| x.1));
+            if let Some(ft) = first_t {
+                let age = mon.now - ft;
+                if age < t - 1 {
+                    apply!(Ev::Tick(t - 1 - age));
+                    let got = apply!(Ev::Poll(c));
+                    rep.count("c12_polls_one_ns_before_the_deadline", 1);
+                    if got != [None, None] {
+                        mismatch!("poll-one-ns-before-deadline-reports", got, "nothing");
+                    }
                 }
             }
         }
@@ -953,7 +971,7 @@ pub fn run_c12(cfg: &Cfg, rep: &mut Report) {
     let seqs = unit_sequences(max_units);
     let seqs2 = unit_sequences(cfg.size(1, 2, 3) as usize);
     rep.count("c12_unit_sequences", seqs.len() as u64);
-    let decos = [Deco::None, Deco::LatePollAtBoundaries, Deco::EarlyPollsAndSmallTicks, Deco::BigStepsAndNoise, Deco::Random];
+    let decos = [Deco::None, Deco::LatePollAtBoundaries, Deco::EarlyPollsAndSmallTicks, Deco::BigStepsAndNoise, Deco::Random, Deco::DeadlineMinusOne];
     let seqs_ref = &seqs;
     let seqs2_ref = &seqs2;
     par(cfg, rep, |shard, nsh, rep| {
@@ -961,7 +979,7 @@ pub fn run_c12(cfg: &Cfg, rep: &mut Report) {
         let mut id = 0u8;
         let mut sentences = 0u64;
         let mut case_i = 0usize;
-        for timeout in [0u64, T2] {
+        for timeout in [0u64, T2, T_YEAR, ONE_S + 500_000_000] {
             for (i, us) in seqs_ref.iter().enumerate() {
                 for (j, us2) in seqs2_ref.iter().enumerate() {
                     // one selection (j == 0 with empty second part) or two selections
@@ -970,6 +988,9 @@ pub fn run_c12(cfg: &Cfg, rep: &mut Report) {
                         continue;
                     }
                     for deco in decos {
+                        if timeout > T2 && deco != Deco::DeadlineMinusOne && deco != Deco::LatePollAtBoundaries {
+                            continue; // the long timeouts are played with the deadline-focused decorations only
+                        }
                         let reg = (i + j) % 2 == 0;
                         let n1 = [0u16, 421, 16383, 128][(i + j) % 4];
                         let mut sels = vec![(reg, n1, i % 3 == 0, us.clone())];
